@@ -47,11 +47,10 @@ def run(ctx):
                 "(harness/forms.py; tags form:* in the distribution): facts float64/int64 in C / Fortran / strided / negative-stride / "
                 "read-only / transposed layouts, float32 when exact, narrow signed ints when unweighted and the sums fit, nested lists; "
                 "validity arrays as bool (any layout) / uint8 / list; weights float64 / float32 / every integer dtype holding them / list, "
-                "any layout; scalar weights as Python float / int, numpy.float64 / float32 / int64, 0-d array; xcube arrays in every integer "
+                "any layout; scalar weights (bare and in the pair form) as Python float / int, numpy.float64 / float32, 0-d array and NumPy integer scalars of every dtype incl. narrow ones whose product with the row count exceeds the dtype; xcube arrays in every integer "
                 "dtype and layout; iindex dimensions from the constructor (row-id column views, NumPy-scalar N) or from_array on narrow "
                 "dtypes; interacting_shape entries as NumPy scalars of every integer dtype (signed and unsigned, any number of dimensions), N as a NumPy scalar, NumPy-scalar commons (a common-at-dtype-max stream: uint8 255 / int8 127 / uint16 65535 / int16 32767 with an inferred shape).  Not generated (outside the quantifier or documented; notes FORM "
-                "FINDINGS): unsigned / overflowing narrow facts, a weights tuple of numbers, interacting_shape as a list, narrow "
-                "NumPy integer scalars as a scalar weight, a NumPy-scalar iindex common together with xcube(d.to_array()).  A case = one (call, format) "
+                "FINDINGS): unsigned / overflowing narrow facts, a weights tuple of numbers, interacting_shape as a list, a NumPy-scalar iindex common together with xcube(d.to_array()).  A case = one (call, format) "
                 "literal, non-trivial when N > 0 and the cube has >= 1 dimension or a fact/weight")
     ctx.trusted = list(core.STD_TRUSTED) + [
         "SetOps: set_intersect_merge_np on increasing inputs = inter_spec (property C08); extra axes of a dimension (C13)",
@@ -114,6 +113,8 @@ def run(ctx):
         one(ca.decimal_case(rng, absent=(i % 2 == 0)), "decimal-weights")
     for i in range(2500 if thorough else 200):
         one(ca.int_weights_case(rng), "int-weights")
+    for i in range(2000 if thorough else 160):
+        one(ca.int_weights_case(rng, kind=ca.KINDS[i % 4] if i % 2 else "count", scalar=True), "int-scalar-weight")
     for i in range(300 if thorough else 30):
         one(ca.max_common_case(rng), "common-at-dtype-max")
     for i in range(1500 if thorough else 120):
